@@ -110,6 +110,9 @@ KINDS = [
     "raise_custom",
     "raise_custom2",
     "raise_unpicklable",
+    "raise_connreset",
+    "raise_brokenpipe",
+    "raise_big",
     "sleep",
     "delay",
     "kill_exit",
@@ -123,6 +126,12 @@ FAMILY = {
     "raise_custom": "raise",
     "raise_custom2": "raise_multiarg",
     "raise_unpicklable": "raise_unpicklable",
+    # exceptions of the OS / connection family raised BY THE SUB-ENVIRONMENT (an environment that talks to a remote
+    # simulator): they are the sub-environment's exception like any other, not a sign that the parent went away
+    "raise_connreset": "raise",
+    "raise_brokenpipe": "raise",
+    # an exception whose pickled report (payload + traceback) is far larger than an OS pipe buffer
+    "raise_big": "raise",
     "sleep": "sleep",
     "delay": "delay",
     "delay_long": "delay",
@@ -161,6 +170,14 @@ class ScriptedFault2(Exception):
         self.where = where
 
 
+class BigFault(ValueError):
+    """exception that carries a large payload (e.g. the offending observation batch)"""
+
+    def __init__(self, msg, blob=b""):
+        super().__init__(msg, blob)
+        self.blob = blob
+
+
 class UnpicklableFault(Exception):
     """exception that carries a payload pickle cannot serialise (e.g. a handle / closure)"""
 
@@ -176,6 +193,9 @@ def _fault_class(kind):
         "raise_custom": ScriptedFault,
         "raise_custom2": ScriptedFault2,
         "raise_unpicklable": UnpicklableFault,
+        "raise_connreset": ConnectionResetError,
+        "raise_brokenpipe": BrokenPipeError,
+        "raise_big": BigFault,
     }.get(kind)
 
 
@@ -230,6 +250,12 @@ def _make_env_class():
                         raise ScriptedFault2(self.index, cmd)
                     if kind == "raise_unpicklable":
                         raise UnpicklableFault(f"unpicklable fault in {cmd} #{n}")
+                    if kind == "raise_connreset":
+                        raise ConnectionResetError(f"scripted connection reset in {cmd} #{n} of env {self.index}")
+                    if kind == "raise_brokenpipe":
+                        raise BrokenPipeError(f"scripted broken pipe in {cmd} #{n} of env {self.index}")
+                    if kind == "raise_big":
+                        raise BigFault(f"scripted fault with a large payload in {cmd} #{n}", bytes(512 * 1024))
                     if kind == "sleep":
                         # sleeps *past the caller's timeout* by construction: the driver opens the gate only
                         # after its *_wait(timeout=...) came back (machine load cannot make the sleeper early)
@@ -600,6 +626,50 @@ def _blocked_class(snap):
     return None
 
 
+def _thread_blocked_forever(sc) -> bool:
+    """True iff a thread's /proc syscall line shows a call that only ANOTHER process or thread can end (no timeout)."""
+    if not sc or not sc[0].lstrip("-").isdigit():
+        return False
+    nr = int(sc[0])
+    try:
+        args = [int(a, 16) for a in sc[1:7]]
+    except ValueError:
+        return False
+    if nr in (0, 1):  # read / write on a pipe or socket
+        return True
+    if nr == 202:  # futex(uaddr, op, val, timeout, ...): FUTEX_WAIT* without a timeout
+        op = args[1] & 0x7F if len(args) > 1 else -1
+        return op in (0, 9) and len(args) > 3 and args[3] == 0
+    if nr == 61:  # wait4 without WNOHANG
+        return len(args) >= 3 and (args[2] & 0xFFFFFFFF) == 0
+    if nr == 7:  # poll(-1)
+        return len(args) >= 3 and (args[2] & 0xFFFFFFFF) == 0xFFFFFFFF
+    if nr == 271:  # ppoll(NULL timeout)
+        return len(args) >= 3 and args[2] == 0
+    if nr in (23, 270):  # select / pselect6 with a NULL timeout
+        return len(args) >= 5 and args[4] == 0
+    return False
+
+
+def _threads(pid):
+    """[(tid, state, syscall words, (voluntary, involuntary) context switches)] of every thread of pid"""
+    out = []
+    try:
+        tids = sorted(int(t) for t in os.listdir(f"/proc/{pid}/task"))
+    except OSError:
+        return out
+    for tid in tids:
+        st = _read_file(f"/proc/{pid}/task/{tid}/stat")
+        if not st:
+            continue
+        state = st[st.rfind(")") + 2 :].split()[0]
+        status = _read_file(f"/proc/{pid}/task/{tid}/status") or ""
+        m = re.search(r"voluntary_ctxt_switches:\s+(\d+)\s+nonvoluntary_ctxt_switches:\s+(\d+)", status)
+        out.append((tid, state, tuple((_read_file(f"/proc/{pid}/task/{tid}/syscall") or "").split()),
+                    (int(m.group(1)), int(m.group(2))) if m else None))
+    return out
+
+
 def _read_file(path):
     try:
         with open(path) as f:
@@ -624,6 +694,7 @@ def _snapshot(pid):
     snap["wchan"] = (_read_file(f"/proc/{pid}/wchan") or "").strip()
     stack = _read_file(f"/proc/{pid}/stack") or ""
     snap["kstack"] = [ln.split("] ")[-1].split("+")[0] for ln in stack.splitlines()[:6]]
+    snap["tasks"] = _threads(pid)
     if snap["syscall"] and snap["syscall"][0] == "0" and len(snap["syscall"]) > 1:
         try:
             snap["fd"] = os.readlink(f"/proc/{pid}/fd/{int(snap['syscall'][1], 16)}")
@@ -1327,10 +1398,16 @@ def _inspect(driver_pid, worker_pids, tb_fd):
             continue
         live.append(p)
         if _blocked_class(s) != "read" and reason is None:
-            reason = f"worker {p} not blocked in read: state={s.get('state')} syscall={s.get('syscall', [])[:1]} wchan={s.get('wchan')}"
+            # not the plain "waiting for the next command" picture: still a member of a dead-lock if EVERY thread of the
+            # worker sleeps in a call without a timeout (e.g. main thread joins the queue feeder at exit, the feeder is
+            # stuck writing a large report into a pipe nobody reads)
+            tasks = s.get("tasks") or []
+            if not tasks or not all(st == "S" and _thread_blocked_forever(sc) for _, st, sc, _ in tasks):
+                reason = f"worker {p} not blocked in read: state={s.get('state')} syscall={s.get('syscall', [])[:1]} wchan={s.get('wchan')}"
     if reason is None:
         for p in [driver_pid] + live:
-            sig = [(s[p].get("state"), tuple(s[p].get("syscall") or ()), tuple(s[p].get("ctx") or ()), s[p].get("cpu")) for s in samples]
+            sig = [(s[p].get("state"), tuple(s[p].get("syscall") or ()), tuple(s[p].get("ctx") or ()), s[p].get("cpu"),
+                    tuple(s[p].get("tasks") or ()) if p != driver_pid else None) for s in samples]
             if len(set(sig)) != 1 or samples[0][p].get("ctx") is None:
                 reason = f"process {p} changed between samples"
                 break
